@@ -39,7 +39,8 @@ class SyncProp(core.Prop):
 class C04(SyncProp):
     id = "C04"
     kinds = ("mutex",)
-    sizes = {"quick": 2500, "thorough": 60000}
+    sizes = {"quick": 1500, "thorough": 60000}
+    ready = True
     nontrivial_labels = ("mutex-blocks", "recursive-trylock-depth>=2", "recursive-trylock-first")
     technique = ("property-based testing (Hypothesis): generated lock/try_lock/unlock programs run on the real kernel, their "
                  "kernel-ordered log replayed through a sequential mutex specification (model-based oracle, exact dates)")
